@@ -5,6 +5,7 @@ use crate::runner::PropSpec;
 pub mod c01;
 pub mod c02;
 pub mod c04;
+pub mod c08;
 pub mod c20;
 pub mod selftest;
 
@@ -20,5 +21,5 @@ pub const STUB: &[&str] = &[
 ];
 
 pub fn all() -> Vec<PropSpec> {
-    vec![c01::spec(), c02::spec(), c04::spec(), c20::spec()]
+    vec![c01::spec(), c02::spec(), c04::spec(), c08::spec(), c20::spec()]
 }
